@@ -87,10 +87,89 @@ Eval vm_compute in ("GF", failing (fun c => match c with (N,r,P,e) => gf_eqb (ge
         rep.fail("broken-correspondence", "get_functions' directory operations are not the model program gf_programs",
                  "C14:fs-gf-corr", observed=[tr["gf0"], tr["gf1"]], expected=[want_gf0, want_gf1],
                  theorem="C14_get_functions_dirs_safe (FsRace.gf_programs)")
+    stage_runs(ctx)
     rep.rule = ("arith: every (N, P, rank) with N<=%d, P<=%d through the real split_idx/get_functions and the generated Coq model "
                 "(non-trivial: N>0 and P>1); fs: traced directory-op sequences of the real constructor/get_functions; "
                 "sched: gated two/three-process runs of the real constructor under chosen interleavings" % (nmax, pmax))
     rep.exhaustive = True
+
+
+def stage_runs(ctx):
+    """The four real fitting stages under several rank counts from a fresh output directory: every rank completes,
+    every stage output has one row per function, and row i refers to function i."""
+    import filecmp
+    import numpy as np
+    sys.path.insert(0, os.path.join(esrv.VERIF, "harness", "lib"))
+    import fitlib
+    import liboracle as lo
+    rep = ctx.report
+    work, repo = fitlib.work_repo(ctx.scratch, "c14s")
+    ok, err = fitlib.generate(repo, "core_maths", [3])
+    if not ok:
+        rep.fail("failing-input", "generation fails: %s" % err[-300:], "C14:stages:generation-crash", input={"basis": "core_maths", "n": 3})
+        return
+    n = 3
+    lib = lo.load_library(fitlib.libdir(repo, "core_maths", n), n)
+    nu, na = len(lib["uniq"]), len(lib["all"])
+    rng = np.random.default_rng(ctx.seed % 2 ** 31)
+    x = np.linspace(0.5, 3.0, 24)
+    y = 1.7 / x - 0.6 + rng.normal(0, 0.1, size=len(x))
+    sig = np.full(len(x), 0.1)
+    ranks = [3, 12] if ctx.quick else [2, 3, 4, 6, 11, 12, 16, nu + 3, na + 2]
+    files = {"negloglike_comp%d.dat" % n: nu, "codelen_comp%d_deriv.dat" % n: nu, "derivs_comp%d.dat" % n: nu,
+             "codelen_matches_comp%d.dat" % n: na}
+    for P in ranks:
+        ddir = os.path.join(work, "data_P%d" % P)
+        fitlib.write_data(ddir, "d.txt", x, y, sig)
+        res = fitlib.run_stages(repo, "gauss", ddir, "d.txt", "r", "core_maths", n, nranks=P, seed=ctx.seed % 10000, timeout=1500)
+        rep.case(key=("stages", P), sample={"ranks": P, "uniques": nu, "functions": na, "exit": [r[0] for r in res]})
+        inp = {"basis": "core_maths", "n": n, "ranks": P, "x": x.tolist(), "y": y.tolist(), "sigma": 0.1}
+        if any(r[0] != 0 for r in res):
+            badr = [i for i, r in enumerate(res) if r[0] != 0]
+            rep.fail("failing-input", "fitting stages do not complete on every rank with %d ranks from a fresh directory: ranks %s: %s" % (
+                P, badr, res[badr[0]][2].strip().splitlines()[-1:]), "C14:stages:rank-crash", input=inp, observed=res[badr[0]][2][-1200:])
+            continue
+        od = fitlib.outdir(ddir, "r")
+        tabs = {}
+        bad = False
+        for fn, want in files.items():
+            t = fitlib.load_table(os.path.join(od, fn))
+            tabs[fn] = t
+            if t is None or len(t) != want:
+                rep.fail("failing-input", "%s has %s rows with %d ranks, expected one row per function (%d)" % (fn, None if t is None else len(t), P, want),
+                         "C14:stages:row-count", input=inp, observed=None if t is None else len(t), expected=want)
+                bad = True
+        if bad:
+            continue
+        # row i of the fit output refers to function i: its likelihood is reproduced by function i at row i's parameters
+        for i, row in enumerate(tabs["negloglike_comp%d.dat" % n]):
+            if not np.isfinite(row[0]):
+                continue
+            nll = fitlib.gauss_nll(lib["uniq"][i], row[1:], x, y, sig)
+            if not abs(nll - row[0]) <= 1e-4 * (1 + abs(nll)):
+                rep.fail("failing-input", "negloglike row %d does not refer to function %d (%s) with %d ranks: likelihood at the row's parameters is %r, row says %r" % (
+                    i, i, lib["uniq"][i], P, nll, row[0]), "C14:stages:row-alignment:fit", input=dict(inp, row=i), observed=row[0], expected=nll)
+                bad = True
+                break
+        if bad:
+            continue
+        # the later stages are deterministic functions of the fit output: P ranks must give the 1-rank files byte for byte
+        keep = os.path.join(work, "keep_P%d" % P)
+        os.makedirs(keep)
+        later = [f for f in files if not f.startswith("negloglike")] + ["final_%d.dat" % n]
+        for f in later:
+            shutil.copy(os.path.join(od, f), os.path.join(keep, f))
+        res1 = fitlib.run_stages(repo, "gauss", ddir, "d.txt", "r", "core_maths", n, stages="fisher,match,combine", nranks=1, timeout=1500)
+        if res1[0][0] != 0:
+            rep.fail("broken-correspondence", "1-rank re-run of the deterministic stages failed", "C14:stages:rerun", observed=res1[0][2][-800:], theorem="stage alignment")
+            continue
+        for f in later:
+            if not filecmp.cmp(os.path.join(od, f), os.path.join(keep, f), shallow=False):
+                rep.fail("failing-input", "%s produced with %d ranks differs from the 1-rank result on the same fit output: rows are not one per function in file order" % (f, P),
+                         "C14:stages:row-alignment:%s" % f.split("_comp")[0], input=inp)
+                break
+        rep.traces += P
+    shutil.rmtree(work, ignore_errors=True)
 
 
 def spec_tiles(rows):
